@@ -436,7 +436,7 @@ Proof.
   - inversion Hok; subst. split; [discriminate|]. split; [reflexivity|]. intros _ H.
     apply leaf_no_match_plain; assumption.
   - inversion Hok; subst. split; [discriminate|]. split; [reflexivity|].
-    intros _ H0. apply leaf_no_match_dyn; assumption.
+    intros _ Hno. apply leaf_no_match_dyn; assumption.
   - split; [discriminate|]. rewrite frule_static. split.
     + intros _ Hin. rewrite (lpo_key_true _ p Hne Hin). reflexivity.
     + intros _ Hin. rewrite (lpo_key_false _ p Hne Hin). reflexivity.
